@@ -276,6 +276,11 @@ def _merge_shards(raw, keys):
                 elif old["status"] in ("discharged", "covered") and o["status"] not in ("discharged", "covered") and o.get("kind") != "cover":
                     seen[key] = o
         m["obligations"] = list(seen.values())
+        if all(r["status"] == "ok" for r in rs) and not getattr(REGISTRY.get(k), "is_lemma", False) and not any(
+                o.get("kind") == "cover" and ("cover@exit" in o["name"] or "cover@raise" in o["name"]) for o in m["obligations"]):
+            # no shard explored a path that reaches an exit of the function: its postconditions would be vacuous
+            m["obligations"].append({"name": f"{m['name']}/cover@exit", "kind": "cover", "status": "uncovered", "time": 0.0, "backend": "",
+                                     "detail": "no explored path reaches an exit of the function", "path": [], "model": None})
         m["paths"] = sum(r["paths"] for r in rs)
         m["solver_time"] = sum(r["solver_time"] for r in rs)
         m["wall"] = max(r["wall"] for r in rs)
